@@ -21,13 +21,18 @@
    writes through captured cells, functions returned / stored / passed as arguments and called through variables -- with
    the statements assignment, modify, op-assignment (on a local or THROUGH a captured cell), print, assert, expression
    statement, if, if / else, else-if chains, while, from loops of every form (named fresh / colliding / anonymous counter,
-   `to` / `through`, with a step, calls in the lower bound, calls in the upper bound of an anonymous loop), break, continue
+   `to` / `through`, with a step, calls in the lower bound, calls in the upper bound also when the counter is named: the
+   relation Cl of ClosRel.v tolerates the binding of the counter the VM makes before it evaluates the bound), break, continue
    (through any nesting of ifs), return with and without a value; expressions with calls anywhere (operands of arithmetic,
-   comparisons, && || !, `(a) or b`, `get a`, arguments) and `self(..)` (pinned for the programs of C15 / C12 in
+   unary minus, comparisons, && || !, `(a) or b`, `get a`, arguments) and `self(..)` (pinned for the programs of C15 / C12 in
    Props/C15.v, Props/C12.v).
-   `in_fragment` = in_fragment1 || in_fragment2; fragment_correct holds on both.
-   NOT yet proved: calls in the upper bound of a from loop with a NAMED counter; a step expression that contains calls or
-   reads captured variables (fragment 2 requires a call-free step over locals).
+   `in_fragment` = in_fragment1 || in_fragment2; fragment_correct holds on both.  On everything the generators of the checks
+   produce, in_fragment2 holds wherever in_fragment1 does (measured, not a theorem).
+   NOT proved: a step expression of a from loop that contains calls (the step is a call-free expression over locals and over
+   captured data variables that no assignment / colliding counter in the body shadows); a named counter with the name of a
+   captured variable when the upper bound contains calls; the VALUE of a function that returns no value on one path (such a
+   function may return data on other paths and be called in statement position; its result cannot be printed or used as an
+   operand).
    Those are covered by the T1/T2/T3 correspondences on every run.
 
    What else is proved and pinned here:
@@ -161,6 +166,11 @@ Proof. vm_compute. reflexivity. Qed.
 Check C01_nv_mixed_program.
 (* from loops of every form next to closures *)
 Check C01_nv_loops_program.
+(* calls in the upper bound of loops with a named counter, a step that reads a captured variable, unary minus over a call:
+   inside fragment 2, outside fragment 1 *)
+Check C01_nv_bounds_program.
+(* a function that returns data on one path and no value on another, called in statement position *)
+Check C01_nv_maybe_value_program.
 (* a write through a captured variable alone is inside (fragment 2) *)
 Example C01_nv_modify_in_fragment :
   in_fragment nvp [SAssign [120%N] (EInt 1); SAssign [102%N] (EFn [] [SModify [120%N] (EInt 2); SReturn (Some (EVar [120%N]))]); SPrint (ECall (EVar [102%N]) [])] = true.
